@@ -1090,4 +1090,88 @@ theorem end_to_end_arff_dense' (q : Nat) (hq : q = C12.SQ ∨ q = C12.DQ) (also 
     · rename_i table ht
       exact ⟨cells, table, hc, ht, dense_meets' given ind table ints h⟩
 
+/-! #### contexts addressed by header name: the label cannot be read out of the context -/
+
+theorem getElem?_dropOne {α : Type} (l : List α) (i k : Nat) (hi : i < l.length) (hk : k ≠ i) :
+    (l.take i ++ l.drop (i + 1))[if k < i then k else k - 1]? = l[k]? := by
+  by_cases hki : k < i
+  · simp only [hki, if_true]
+    rw [List.getElem?_append_left (by rw [List.length_take]; omega), List.getElem?_take_of_lt hki]
+  · have hgt : i < k := by omega
+    simp only [hki, if_false]
+    rw [List.getElem?_append_right (by rw [List.length_take]; omega), List.length_take, List.getElem?_drop]
+    have : i + 1 + (k - 1 - min i l.length) = k := by omega
+    rw [this]
+
+theorem lookupNamed_not_mem {η γ : Type} [DecidableEq η] (name : η) (hs : List η) (vs : List γ) (h : name ∉ hs) :
+    lookupNamed name hs vs = .error .keyError := by
+  induction hs generalizing vs with
+  | nil => rfl
+  | cons a as ih =>
+    have hne : ¬ a = name := fun e => h (by simp [e])
+    simp only [lookupNamed, hne, if_false]
+    exact ih vs.tail (fun hm => h (List.mem_cons_of_mem _ hm))
+
+theorem lookupNamed_get {η γ : Type} [DecidableEq η] (name : η) (hs : List η) (vs : List γ) (hn : hs.Nodup)
+    (j : Nat) (v : γ) (hj : hs[j]? = some name) (hv : vs[j]? = some v) : lookupNamed name hs vs = .ok v := by
+  induction hs generalizing vs j with
+  | nil => simp at hj
+  | cons a as ih =>
+    rw [List.nodup_cons] at hn
+    cases j with
+    | zero =>
+      simp only [List.getElem?_cons_zero, Option.some.injEq] at hj
+      cases vs with
+      | nil => simp at hv
+      | cons w ws =>
+        simp only [List.getElem?_cons_zero, Option.some.injEq] at hv
+        simp [lookupNamed, hj, hv]
+    | succ j =>
+      simp only [List.getElem?_cons_succ] at hj
+      have hne : ¬ a = name := fun e => hn.1 (by rw [e]; exact List.mem_of_getElem? hj)
+      cases vs with
+      | nil => simp at hv
+      | cons w ws =>
+        simp only [List.getElem?_cons_succ] at hv
+        simp only [lookupNamed, hne, if_false, List.tail_cons]
+        exact ih ws hn.2 j hj hv
+
+theorem label_header_absent' {η : Type} (i : Nat) (hdr : List η) (l : η) (hn : hdr.Nodup) (hl : hdr[i]? = some l) :
+    l ∉ featureHeaders i hdr := by
+  obtain ⟨hi, hget⟩ := List.getElem?_eq_some_iff.mp hl
+  have hsplit : hdr = hdr.take i ++ l :: hdr.drop (i + 1) := by
+    conv_lhs => rw [← List.take_append_drop i hdr]
+    rw [List.drop_eq_getElem_cons hi, hget]
+  rw [hsplit] at hn
+  have h2 := List.nodup_middle.mp hn
+  rw [List.nodup_cons] at h2
+  exact h2.1
+
+theorem label_lookup_fails' {η γ : Type} [DecidableEq η] (i : Nat) (hdr : List η) (feats : List γ) (l : η)
+    (hn : hdr.Nodup) (hl : hdr[i]? = some l) : featureByName i hdr feats l = .error .keyError :=
+  lookupNamed_not_mem l _ feats (label_header_absent' i hdr l hn hl)
+
+theorem feature_lookup' {η γ : Type} [DecidableEq η] (i : Nat) (hdr : List η) (row feats : List γ) (lab : γ)
+    (hn : hdr.Nodup) (hlen : hdr.length = row.length) (hs : splitDense i row = .ok (feats, lab))
+    (k : Nat) (name : η) (v : γ) (hk : k ≠ i) (hname : hdr[k]? = some name) (hv : row[k]? = some v) :
+    featureByName i hdr feats name = .ok v := by
+  unfold splitDense at hs
+  split at hs
+  · cases hs
+  · rename_i l' hl'
+    injection hs with hs
+    injection hs with h1 h2
+    subst h1
+    obtain ⟨hi, _⟩ := List.getElem?_eq_some_iff.mp hl'
+    have hnf : (featureHeaders i hdr).Nodup := by
+      unfold featureHeaders
+      have hsub : (hdr.take i ++ hdr.drop (i + 1)).Sublist hdr := by
+        conv_rhs => rw [← List.take_append_drop i hdr]
+        exact List.Sublist.append (List.Sublist.refl _) (List.drop_sublist_drop_left hdr (Nat.le_succ i))
+      exact hn.sublist hsub
+    refine lookupNamed_get name _ _ hnf (if k < i then k else k - 1) v ?_ ?_
+    · unfold featureHeaders
+      rw [getElem?_dropOne hdr i k (by omega) hk]; exact hname
+    · rw [getElem?_dropOne row i k hi hk]; exact hv
+
 end Coba.C14
